@@ -37,7 +37,11 @@ impl<'a, T> Iterator for AxisIter<'a, T> {
     }
 
     fn size_hint(&self) -> (usize, Option<usize>) {
-        let n = self.array.shape[self.axis.0];
+        let n = self
+            .array
+            .shape
+            .get(self.axis.0)
+            .map_or(0, |n| n - self.index);
         (n, Some(n))
     }
 }
